@@ -191,6 +191,44 @@ func histFlags(seed uint64) []Flags {
 	return append(out, extra)
 }
 
+// pipelineNondeterministic: does the transport-free run of some step answer differently from run to
+// run on one and the same API? (Observed on the unchanged tree: a variable of an input-object type
+// with two invalid fields is refused with the message of whichever field Go's map iteration
+// visits first.) Such a request has no single "same response": a disagreement on it is not a
+// finding. The harness's resolvers are stateless, so repeating a run is harmless.
+func (h *harness) pipelineNondeterministic(steps []Step, fl Flags) bool {
+	w, err := newWorld(fl, nil)
+	if err != nil {
+		return false
+	}
+	defer w.close()
+	for _, st := range steps {
+		varsAtom := "nil"
+		if st.Op.Vars != nil {
+			vars, ok := h.registerDump(*st.Op.Vars)
+			if !ok {
+				continue
+			}
+			if vars.Class == "obj" {
+				varsAtom = vars.Dump
+			}
+		}
+		call := coreCall{hook: fl.Hook, feat: fl.Feat, cost: fl.Cost, feats: st.Feats, q: st.Op.Query, op: st.Op.OpName, vars: varsAtom, exts: "nil"}
+		seen := map[string]bool{}
+		for k := 0; k < 16; k++ {
+			ref, err := h.evalCore(w, call)
+			if err != nil {
+				break
+			}
+			seen[ref.key()] = true
+		}
+		if len(seen) > 1 {
+			return true
+		}
+	}
+	return false
+}
+
 // checkHist plays one history in several configurations; a failure is confirmed by replaying the
 // history on fresh instances (which also rules out run-to-run nondeterminism of the pipeline).
 func (h *harness) checkHist(cs Case, verbose bool) *failure {
@@ -207,6 +245,9 @@ func (h *harness) checkHist(cs Case, verbose bool) *failure {
 				if f2 == nil || at2 != at || f2.what != f.what {
 					confirmed = false
 				}
+			}
+			if confirmed && h.pipelineNondeterministic(cs.Hist, fl) {
+				confirmed = false
 			}
 			if !confirmed {
 				h.run.Count("op:nondeterministic-pipeline (skipped)")
